@@ -95,13 +95,17 @@ def build_model(name, pseed=0, recording=False):
             self.rec_draw = []
 
         def marginal_icdf(self, p, dim, precision_factor=1):
-            v = super().marginal_icdf(p, dim, precision_factor)
+            self._in_icdf = True
+            try:
+                v = super().marginal_icdf(p, dim, precision_factor)
+            finally:
+                self._in_icdf = False
             self.rec_icdf.append((float(p), int(dim), v))
             return v
 
         def draw_sample(self, n, *, random_state=None):
             s = super().draw_sample(n, random_state=random_state)
-            if n < 100000:  # marginal_icdf itself draws >= 100000
+            if not getattr(self, "_in_icdf", False):  # marginal_icdf draws its own Monte-Carlo sample
                 self.rec_draw.append((int(n), s))
             return s
 
